@@ -12,8 +12,8 @@ from mc.ref import expr as rx
 
 ID = "C09"
 LEVEL = "model_checking"
-LEVEL_TEXT = ("Explicit enumeration of macro bodies (every ordered selection of <=3 of 7 statement kinds: .db p, .dw q, lda.w p, local "
-              "label + reference, nested call, width-inferred lda p, .if over a parameter) x every pair of argument kinds (literal, := constant, backward "
+LEVEL_TEXT = ("Explicit enumeration of macro bodies (every ordered selection of <=3 of 8 statement kinds: .db p, .dw q, lda.w p, local "
+              "label + reference, nested call, width-inferred lda p, .if over a parameter, nested calls from a block / loop inside the body) x every pair of argument kinds (literal, := constant, backward "
               "label, forward label, a caller name spelled like the other parameter, a caller name spelled like the body's local "
               "label, constant expression) x caller label before/after x 1-3 applications, plus families for code-block arguments "
               "and splices, 0/1-parameter macros, terminated recursion, undefined macro and missing/surplus arguments. Each program "
@@ -39,6 +39,8 @@ BODY_STMTS = {
     "local": [("label", "loc"), ("data", "dw", [S("loc")])],
     "nested": [("call", "nn", [("b", "+", S("pa"), N(1))])],
     "lda_pb": [("ins", "lda", "", DIRECT, S("pb"))],
+    # the parameter used at expansion time from a scope NESTED in the body
+    "nested_blk": [("block", [("call", "nn", [("b", "+", S("pa"), N(2))])]), ("for", "qf", N(0), N(1), [("call", "nn", [("b", "+", S("pa"), N(3))])])],
     "if_pb": [("if", ("b", "-", S("pb"), N(0x31)), [("data", "db", [N(0xA1)])], [("data", "db", [N(0xA2)])])],  # expansion-time use of a parameter
 }
 ARG_KINDS = ["lit", "const", "back", "fwd", "other-param", "local-name", "const-expr"]
@@ -62,7 +64,7 @@ def arg_expr(kind, j, variant):
 
 
 def bound(tier):
-    return (("1099" if tier == "thorough" else "259") + " bodies x 49 argument-kind pairs x 2 placements of the caller's label x 1..3 applications; + code-block/splice, "
+    return (("2080" if tier == "thorough" else "400") + " bodies x 49 argument-kind pairs x 2 placements of the caller's label x 1..3 applications; + code-block/splice, "
             "0/1-parameter, recursion depth 0..6, undefined / too-few / surplus families")
 
 
@@ -200,7 +202,7 @@ def run_main(sel):
     outcomes = set()
     evals = nt = states = 0
     example = None
-    uses_pa = any(b in ("db_pa", "ldaw_pa", "nested") for b in sel)
+    uses_pa = any(b in ("db_pa", "ldaw_pa", "nested", "nested_blk") for b in sel)
     uses_pb = any(b in ("dw_pb", "lda_pb", "if_pb") for b in sel)
     for k0, k1 in itertools.product(ARG_KINDS, repeat=2):
         for loc_pos in ("before", "after"):
@@ -247,6 +249,16 @@ def run_special():
         for a in range(napps):
             p.append(("call", "mb", [code2]))
         progs.append((p, "code-arg-label-used-by-body", True))
+    # a splice nested inside a block / loop / named scope / conditional of the body
+    for wrap in ("block", "for", "scope", "if"):
+        inner = [("splice", "blk"), ("data", "db", [N(2)])]
+        w = {"block": ("block", inner), "for": ("for", "qs", N(0), N(2), inner), "scope": ("scope", "nsp", inner), "if": ("if", S("kc"), inner, None)}[wrap]
+        p = base + [("macro", "ms2", ["blk"], [("data", "db", [N(1)]), w]), ("org", N(ORG)), ("call", "ms2", [("code", [("data", "db", [N(0x77)])])]),
+                    ("call", "ms2", [("code", [("ins", "nop", "", None, None)])])]
+        progs.append((p, f"splice-nested-in-{wrap}", wrap != "for"))
+    # an undefined macro applied inside a taken .if branch (top level and inside a macro body) still fails
+    progs.append((base + [("org", N(ORG)), ("if", S("kc"), [("data", "db", [N(1)]), ("call", "nosuch2", [N(1)])], [("data", "db", [N(2)])])], "undefined-macro-in-taken-if", False))
+    progs.append((base + [("macro", "gate", ["g"], [("if", S("g"), [("call", "nosuch3", [])], None)]), ("org", N(ORG)), ("call", "gate", [N(1)])], "undefined-macro-in-taken-if", False))
     # splice of a non-code parameter / undefined name must fail
     progs.append((base + [("macro", "ms", ["pa"], [("splice", "pa")]), ("org", N(ORG)), ("call", "ms", [N(1)])], "splice-of-value", False))
     # 0 and 1 parameter macros
